@@ -126,6 +126,8 @@ func diffB(ref, o *bObs) (string, string) {
 		return "R2|kddp-stderr", fmt.Sprintf("kddp output differs under %s:\n--- identity\n%s\n--- permuted\n%s", o.OrderEnv, firstLines(ref.KddpOut, 12), firstLines(o.KddpOut, 12))
 	case ref.Built != o.Built:
 		return "R1|exe-exists", fmt.Sprintf("executable exists=%t under identity, %t under %s", ref.Built, o.Built, o.OrderEnv)
+	case ref.Class == "resource-limit" || o.Class == "resource-limit":
+		return "", ""
 	case ref.Stdout != o.Stdout || ref.Exit != o.Exit || ref.Class != o.Class:
 		return "R3|behaviour", fmt.Sprintf("program behaviour differs under %s: exit %d/%d class %s/%s\n--- identity stdout\n%s\n--- permuted stdout\n%s", o.OrderEnv, ref.Exit, o.Exit, ref.Class, o.Class, firstLines(ref.Stdout, 10), firstLines(o.Stdout, 10))
 	}
